@@ -53,3 +53,11 @@ VARIANTS += [
     M('C09', 'parsed-tdda-files-cached-by-mtime', [E(BS, "class Marks:", "TDDA_FILE_CACHE = {}\n\n\ndef read_tdda_file(path):\n    key = os.path.abspath(path)\n    mtime = os.path.getmtime(path)\n    hit = TDDA_FILE_CACHE.get(key)\n    if hit is not None and hit[0] == mtime:\n        return hit[1]\n    with open(path) as f:\n        obj = json.loads(f.read(), object_pairs_hook=OrderedDict)\n    TDDA_FILE_CACHE[key] = (mtime, obj)\n    return obj\n\n\nclass Marks:")],
       rule='C09-NOCACHE', key='TDDA_FILE_CACHE'),
 ]
+
+VARIANTS += [
+    M('C09', 'dictionary-constraints-skip-type-repair', [E(PC, "    pdv = PandasConstraintVerifier(df, epsilon=epsilon,\n                                   type_checking=type_checking)\n    if isinstance(constraints_path, dict):\n        constraints = DatasetConstraints()\n        constraints.initialize_from_dict(native_definite(constraints_path))\n    else:\n        constraints = DatasetConstraints(loadpath=constraints_path)\n    if repair:\n        pdv.repair_field_types(constraints)\n    return pdv.verify(",
+                                                           "    pdv = PandasConstraintVerifier(df, epsilon=epsilon,\n                                   type_checking=type_checking)\n    if isinstance(constraints_path, dict):\n        constraints = DatasetConstraints()\n        constraints.initialize_from_dict(native_definite(constraints_path))\n    else:\n        constraints = DatasetConstraints(loadpath=constraints_path)\n        if repair:\n            pdv.repair_field_types(constraints)\n    return pdv.verify(")],
+      rule='C09-SAMEPREP', key='verify_df'),
+    M('C09', 'refactor-repair-guard-inverted', [E(PC, "    if repair:\n        pdv.repair_field_types(constraints)\n    return pdv.verify(", "    if not repair:\n        pass\n    else:\n        pdv.repair_field_types(constraints)\n    return pdv.verify(")],
+      kind='refactor'),
+]
